@@ -679,6 +679,80 @@ Module TaffyRealInstance.
   Print Assumptions C01_real_taffy_equals_exact_when_no_lossy_hit_partial.
 End TaffyRealInstance.
 
+(* Wave 8a: TOTALITY of the engines the whole-tree correspondences run.  C01_memo_total needs "the algorithm addresses only existing
+   children" (Bounded); it was instantiated for the toy algorithms only, so every `... = Some ...` premise of the block / flex / grid /
+   taffy engine theorems rested on computed examples.  Bounded is now a THEOREM for the real algorithms (Proofs/BlockAlgBounded.v: every
+   Query / SetLayout of the block resumption addresses an item's node or the index of a display:none child; Proofs/FlexAlgBounded.v:
+   from C05_flex_algorithm_shape; Proofs/GridAlgBounded.v: the argument of C05_grid_algorithm_shape replayed -- the shape itself only says
+   "not display:none" for layout events -- incl. the panic stand-in), for every `Num`, every dispatch / preprocessing / leaf function and
+   every absolute-item routine that addresses only its own node.  Hence: with fuel >= the height of the tree the complete engine, its
+   compute_root_layout and any sequence of passes succeed, whatever the caches and stored layouts hold, for every key equality `teq`.
+   The runners use fuel 64 and the harness generates trees of depth <= 64, so their fuel-exhaustion marker can never be printed.
+   NOT covered: the real-cache engines (Model/EngineReal.v `gmemo` / `memo_real`: EngineTotal.memo_total is about `memo`; the same
+   induction would go through but is not written). *)
+From TV Require Proofs.EngineTotal Proofs.TaffyTotal Proofs.BlockAbsLocal Model.BlockAlg Model.BlockEngine Model.BlockAbs.
+Module TaffyTotality.
+  Import Num.Num Model.Common Model.Leaf Model.FlexAlgBase Model.BlockFlexEngine Model.TaffyEngine Model.TaffyRoot.
+
+  Theorem C01_taffy_algorithms_address_existing_children :
+    forall (T : Type) (N : Num T) (s : TStyle T) (st : list (TStyle T)) (i : FIn T),
+      EngineTotal.Bounded (FIn T) (LayoutOutput T) (FLay T) (length st) (real_algo s st i).
+  Proof. intros T N s st i. apply TaffyTotal.real_algo_bounded. Qed.
+  Print Assumptions C01_taffy_algorithms_address_existing_children.
+
+  Theorem C01_taffy_engine_total :
+    forall (T : Type) (N : Num T) (teq : T -> T -> bool) (fuel : nat)
+           (t : tree (TStyle T) (FIn T) (LayoutOutput T) (FLay T)) (i : FIn T),
+      EngineTotal.height (TStyle T) (FIn T) (LayoutOutput T) (FLay T) t <= fuel ->
+      exists o t', real_memo teq fuel t i = Some (o, t').
+  Proof. intros T N teq fuel t i Hh. apply TaffyTotal.real_memo_total. exact Hh. Qed.
+  Print Assumptions C01_taffy_engine_total.
+
+  (* the same for every instance of the engine's parameters (the C05 / C06 engine theorems quantify over them) *)
+  Theorem C01_taffy_engine_total_any_parameters :
+    forall (T : Type) (N : Num T) (teq : T -> T -> bool) (disp : TStyle T -> nat -> TKind)
+           (pre : Block.BStyle T -> BlockAlg.BIn T -> BlockAlg.BIn T) (abs_child : @BlockAlg.AbsChild T)
+           (leaf : TStyle T -> FIn T -> LayoutOutput T),
+      BlockAlg.AbsChildLocal abs_child ->
+      forall (fuel : nat) (t : tree (TStyle T) (FIn T) (LayoutOutput T) (FLay T)) (i : FIn T),
+        EngineTotal.height (TStyle T) (FIn T) (LayoutOutput T) (FLay T) t <= fuel ->
+        exists o t', taffy_memo teq disp pre abs_child leaf fuel t i = Some (o, t').
+  Proof. intros T N teq disp pre abs_child leaf Hloc fuel t i Hh. apply TaffyTotal.taffy_memo_total; assumption. Qed.
+  Print Assumptions C01_taffy_engine_total_any_parameters.
+
+  (* compute_root_layout, and TaffyTree::compute_layout called several times in a row on a fresh tree (what `vh taffytree cases` runs) *)
+  Theorem C01_taffy_compute_root_total :
+    forall (T : Type) (N : Num T) (teq : T -> T -> bool) (fuel : nat)
+           (t : tree (TStyle T) (FIn T) (LayoutOutput T) (FLay T)) (avail : Size (AvailableSpace T)),
+      EngineTotal.height (TStyle T) (FIn T) (LayoutOutput T) (FLay T) t <= fuel ->
+      exists t', real_compute_root teq fuel t avail = Some t'.
+  Proof. intros T N teq fuel t avail Hh. apply TaffyTotal.real_compute_root_total. exact Hh. Qed.
+  Print Assumptions C01_taffy_compute_root_total.
+
+  Theorem C01_taffy_layout_passes_total :
+    forall (T : Type) (N : Num T) (teq : T -> T -> bool) (fuel : nat) (k : sk (TStyle T)) (avails : list (Size (AvailableSpace T))),
+      EngineTotal.sheight (TStyle T) k <= fuel ->
+      exists ls t', real_layout_passes teq fuel k avails = Some (ls, t').
+  Proof. intros T N teq fuel k avails Hh. apply TaffyTotal.real_layout_passes_total. exact Hh. Qed.
+  Print Assumptions C01_taffy_layout_passes_total.
+
+  (* block containers + leaves (Model/BlockEngine.v, the engine of `vh blocktree`) *)
+  Theorem C01_bl_engine_total :
+    forall (T : Type) (N : Num T) (pre : Block.BStyle T -> BlockAlg.BIn T -> BlockAlg.BIn T) (fuel : nat)
+           (t : tree (BlockEngine.BNode T) (BlockAlg.BIn T) (Block.ChildOut T) (BlockAlg.BLayout T)) (i : BlockAlg.BIn T),
+      EngineTotal.height (BlockEngine.BNode T) (BlockAlg.BIn T) (Block.ChildOut T) (BlockAlg.BLayout T) t <= fuel ->
+      exists o t', BlockEngine.bl_memo pre BlockAbs.abs_child_block fuel t i = Some (o, t').
+  Proof. intros T N pre fuel t i Hh. apply TaffyTotal.bl_memo_total; [apply BlockAbsLocal.abs_child_block_local|exact Hh]. Qed.
+  Print Assumptions C01_bl_engine_total.
+
+  (* the premise is satisfiable: the 10-node example tree of C01_taffy_engine_example (all container kinds) has 3 levels *)
+  Example C01_taffy_engine_total_example :
+    EngineTotal.sheight (TStyle QNum.XQ) TaffyExample.ex_tree = 3%nat /\
+    exists ls t', real_layout_passes TaffyKey.xq_seqb 3%nat TaffyExample.ex_tree [] = Some (ls, t').
+  Proof. split; [vm_compute; reflexivity|]. apply TaffyTotal.real_layout_passes_total. vm_compute. auto. Qed.
+  Print Assumptions C01_taffy_engine_total_example.
+End TaffyTotality.
+
 Print Assumptions C01_memo_sound.
 Print Assumptions C01_root_output_equals_fresh.
 Print Assumptions C01_fresh_inv.
